@@ -68,6 +68,54 @@ Theorem C09_undefined : forall fuel inc macroses line name ops st,
   lookup name macroses = None -> macro_expand fuel inc macroses line name ops st = Err (Some line).
 Proof. exact undefined_macro. Qed.
 
+(** (4) THE SPLICE.  In a code segment, a call of a macro whose substituted body contains no segment
+    directive, .org or .include line (labels, instructions, data, .set/.def/.equ, messages, conditionals
+    and nested macro definitions are all allowed) is processed by pass 0 as: read the substituted body as
+    a fresh code segment at the current address ([body_items]: the state takes over what the body did
+    to macros, messages and symbols; the list of segments and the file layer stay as they were), then
+    process the items it produced - nested calls one level deeper - in the place of the call, then go
+    on with the rest.  The equation covers failing runs too (both sides fail alike). *)
+Require Import AvraV.Proofs.SpliceProofs.
+Theorem C09_call_is_paste : forall fuel inc macroses d cp name ops rest st body,
+  seg_t (last_seg st) = SCode ->
+  lookup name macroses = Some body ->
+  Forall (fun ln => neutral_line ln = true) (substitute ops body) ->
+  pass0_items fuel inc macroses (S d) ((cp, IInstr (OCustom name) ops) :: rest) st =
+  bind (body_items fuel inc ops body st) (fun x =>
+  bind (pass0_items fuel inc macroses d (snd x) (fst x)) (fun s =>
+  pass0_items fuel inc macroses (S d) rest s)).
+Proof. exact call_is_paste. Qed.
+Print Assumptions C09_call_is_paste.
+(** ... hence an accepted call leaves exactly the state that the body's items, written in its place, leave *)
+Theorem C09_call_is_paste_ok : forall fuel inc macroses d cp name ops rest st body r st0 its,
+  seg_t (last_seg st) = SCode ->
+  lookup name macroses = Some body ->
+  Forall (fun ln => neutral_line ln = true) (substitute ops body) ->
+  body_items fuel inc ops body st = Ok (st0, its) ->
+  pass0_items fuel inc macroses (S d) ((cp, IInstr (OCustom name) ops) :: rest) st = Ok r ->
+  pass0_items fuel inc macroses (S d) (its ++ rest) st0 = Ok r.
+Proof. exact call_is_paste_ok. Qed.
+(** the expansion hands over ONE code segment at the current address, or nothing *)
+Theorem C09_expansion_shape : forall fuel inc macroses line name ops st body,
+  lookup name macroses = Some body ->
+  Forall (fun ln => neutral_line ln = true) (substitute ops body) ->
+  macro_expand fuel inc macroses line name ops st =
+    bind (body_items fuel inc ops body st) (fun x =>
+    Ok (fst x, match snd x with
+               | [] => []
+               | its => [{| items := its; seg_t := SCode; address := address (last_seg st) |}]
+               end)).
+Proof. exact expand_neutral. Qed.
+(** items are processed left to right, and what is accepted with d nesting levels left is accepted identically with more *)
+Theorem C09_items_in_order : forall fuel inc macroses depth a b st,
+  pass0_items fuel inc macroses depth (a ++ b) st =
+  bind (pass0_items fuel inc macroses depth a st) (fun s => pass0_items fuel inc macroses depth b s).
+Proof. exact pass0_items_app. Qed.
+Theorem C09_depth_monotone : forall fuel inc macroses d its st r,
+  pass0_items fuel inc macroses d its st = Ok r -> pass0_items fuel inc macroses (S d) its st = Ok r.
+Proof. exact pass0_items_mono. Qed.
+Print Assumptions C09_call_is_paste_ok.
+
 (** Examples (whole pipeline): repeated calls, calls before the definition, nesting, letter case, errors. *)
 Definition code_of (src : string) : option (list N) :=
   match build_str 200 (list_ascii_of_string src) with Ok b => Some (b_code b) | _ => None end.
@@ -85,3 +133,22 @@ Example C09_substitute_example :
   substitute [OE (EBin (EConst 1) BAdd (EConst 2)); OR8 17] [(0%N, lit " subi @1, @0*@0 ; @2")]
   = [(0%N, lit " subi r17, (1+2)*(1+2) ; @2")].
 Proof. vm_compute. reflexivity. Qed.
+
+(** the hypotheses of the splice theorem are met by an ordinary macro (labels, a conditional, data,
+    an argument used twice), and both sides of it evaluate to the same accepted state *)
+Require Import AvraV.Gen.Devices AvraV.Model.Fs.
+Definition ex_body : list (N * str) :=
+  [(1%N, lit " ldi r16, @0"); (2%N, lit "lab: .if @0 > 1"); (3%N, lit " .dw @0*@1"); (4%N, lit ".else"); (5%N, lit " .cseg");
+   (6%N, lit ".endif"); (7%N, lit " rjmp lab")].
+Definition ex_ops : list iop := [OE (EBin (EConst 1) BAdd (EConst 2)); OE (EConst 5)].
+Definition ex_body_ok : list (N * str) := firstn 4 ex_body ++ [(5%N, lit " nop")] ++ skipn 5 ex_body.
+Definition ex_state : pstate := pstate_new (ctx_new default_device).
+Definition ex_call := (((9%N, 2%N), IInstr (OCustom (lit "m")) ex_ops) : (N * N) * item).
+Example C09_splice_hypotheses_met :
+  seg_t (last_seg ex_state) = SCode /\
+  forallb neutral_line (substitute ex_ops ex_body_ok) = true /\
+  forallb neutral_line (substitute ex_ops ex_body) = false /\       (* a .cseg line, even in a skipped branch, is outside *)
+  (match body_items 100 no_include ex_ops ex_body_ok ex_state with Ok (_, its) => Some (length its) | _ => None end) = Some 4%nat /\
+  (match pass0_items 100 no_include [(lit "m", ex_body_ok)] 1 [ex_call] ex_state with
+   | Ok r => Some (map (fun s => length (items s)) (segs r)) | _ => None end) = Some [4%nat].
+Proof. vm_compute. repeat split; reflexivity. Qed.
